@@ -295,6 +295,14 @@ def apply(F, S):
         post_cnt = r["heap"].get("self." + u.cnt)
         post_buf = r["heap"].get("self." + u.buf)
         post_sum = r["heap"].get("self." + b["sum"])
+        accs_ = list(dict.fromkeys(x for x in subterms(ret) if x[0] == "accum" and x[1] == cf(0.0))) if isinstance(ret, tuple) else []
+        if len(accs_) == 1 and not (isinstance(ret, tuple) and ret[0] == "/" and ret[1] == accs_[0]):
+            # the same quotient spelt otherwise (`acc * (1.0 / n)`): bring it to acc / D with the running sum as an atom
+            N0 = Normalizer()
+            want_ = ("/", accs_[0], ("i2f", post_cnt))
+            import specs as _sp
+            if N0.key(ret) == N0.key(want_) and not _sp.float_hazard(ret, want_):
+                ret = want_
         if isinstance(ret, tuple) and ret[0] == "/" and isinstance(ret[1], tuple) and ret[1][0] == "accum" and ret[1][1] == cf(0.0):
             acc = ret[1]
             ivs = [x for x in subterms(acc[2]) if x[0] == "ivar"]
